@@ -37,6 +37,10 @@ pub fn gen_case(t: &mut Tape) -> Case {
         base.input.0.truncate(cut);
     }
     let mut cfg = base.cfg.clone();
+    // (the earlier search on the same searcher is repeated for every fault point: keep it short)
+    if let Some(w) = &mut cfg.warm {
+        w.0.truncate(300);
+    }
     // binary detection on for a part of the cases, with NULs in the input
     if cfg.term != Term::Nul && t.chance(1, 4) {
         cfg.binary = if t.bool() { Bin::Quit(0) } else { Bin::Convert(0) };
@@ -73,7 +77,11 @@ pub fn gen_case_ml(t: &mut Tape) -> Case {
     if t.chance(1, 5) {
         strat = Strat::HeapLimit { chunks: super::c03::gen_chunks(t), limit: c.input.len() + 1 + t.below(64) };
     }
-    Case { mat: Mat::Re { pat: c.pat }, cfg: c.cfg, input: c.input, strat }
+    let mut cfg = c.cfg;
+    if let Some(w) = &mut cfg.warm {
+        w.0.truncate(300);
+    }
+    Case { mat: Mat::Re { pat: c.pat }, cfg, input: c.input, strat }
 }
 
 fn is_prefix(a: &[Event], b: &[Event]) -> bool {
